@@ -275,7 +275,7 @@ func zeroOf(t types.Type) *Term {
 func hasInv(t types.Type) bool {
 	t = types.Unalias(t)
 	if isTimeType(t) {
-		return false
+		return true
 	}
 	switch u := t.Underlying().(type) {
 	case *types.Basic:
@@ -299,6 +299,10 @@ func invOf(t types.Type, x *Term, ac *Term) *Term {
 	t = types.Unalias(t)
 	if !hasInv(t) {
 		return True
+	}
+	if isTimeType(t) {
+		// representable instants: seconds fit an int64, so nanoseconds since year 1 stay far below 2^100
+		return App("time_ok", SBool, x)
 	}
 	switch t.Underlying().(type) {
 	case *types.Basic:
